@@ -225,7 +225,7 @@ theorem carveSSem_of_carveS (env : CEnv) :
   | .assign lhs op e, h => by
       rw [CarveS] at h; rw [CarveSSem]
       simp only [Bool.and_eq_true] at h ⊢
-      refine ⟨⟨⟨h.1.1.1, carveESem_of_carveE h.1.1.2⟩, carveESem_of_carveE h.1.2⟩, ?_⟩
+      refine ⟨⟨⟨h.1.1.1, by unfold lhsCarveSem; rw [carveESem_of_carveE h.1.1.2]; rfl⟩, carveESem_of_carveE h.1.2⟩, ?_⟩
       have h2 := h.2
       split at h2
       · next cd ce hcd hce => rw [hcd, hce]; exact assignCarveSem_of h2
